@@ -247,6 +247,41 @@ pub fn gen_value(dt: &FieldDataType, n: usize, e: &mut Ent, utf8_only: bool) -> 
     }
 }
 
+/// Timestamps and counters of real records are not independent of the packet header: flow
+/// start / end times lie shortly before (or, with skewed clocks, after) the export time, the
+/// switched times around sysUpTime. In one case out of eight a 4- or 8-byte number or duration
+/// is therefore derived from a header time word: the word itself (as seconds, milliseconds,
+/// microseconds or nanoseconds, as the element's type suggests) plus or minus a small offset.
+fn header_relative(dt: &FieldDataType, v: &mut Vec<u8>, e: &mut Ent, hdr_times: [u32; 2]) {
+    let n = v.len();
+    if n != 4 && n != 8 {
+        return;
+    }
+    let scale: u64 = match dt {
+        FieldDataType::UnsignedDataNumber | FieldDataType::DurationSeconds => 1,
+        FieldDataType::DurationMillis => 1_000,
+        FieldDataType::DurationMicros => 1_000_000,
+        FieldDataType::DurationNanos => 1_000_000_000,
+        _ => return,
+    };
+    let s = e.next();
+    if s >= 32 {
+        return;
+    }
+    let base = hdr_times[(s & 1) as usize] as u64;
+    // offsets of -3 .. +8 quarter-units: from "three quarters of a unit earlier" to "two units later"
+    let off = (e.next() % 12) as i64 - 3;
+    let val: u64 = if n == 4 {
+        // a 4-byte field cannot hold seconds * 1000: the header word itself is the base
+        // (sysUpTime is in milliseconds already), offsets in units of 25
+        (base as i64 + off * if scale == 1 { 1 } else { 25 }) as u64 & 0xffff_ffff
+    } else {
+        (base.wrapping_mul(scale) as i64).wrapping_add(off * (scale as i64 / 4).max(1)) as u64
+    };
+    let b = val.to_be_bytes();
+    v.copy_from_slice(&b[8 - n..]);
+}
+
 fn varlen_len(e: &mut Ent) -> usize {
     let b = e.next() as usize;
     match b {
@@ -294,6 +329,7 @@ fn build_sets(
     sets: &[SetPlan],
     table: &mut BTreeMap<u16, Def>,
     o: &BuildOpts,
+    hdr_times: [u32; 2],
 ) -> SetOut {
     let defs = match proto {
         Proto::V9 => &pool.v9,
@@ -427,6 +463,7 @@ fn build_sets(
                             enc_varlen(&mut rec, &v, long);
                         } else {
                             let mut v = gen_value(&dt, f.len as usize, &mut e, o.utf8_only);
+                            header_relative(&dt, &mut v, &mut e, hdr_times);
                             if o.proto_named && dt == FieldDataType::ProtocolType && v.len() == 1 && (145..=254).contains(&v[0]) {
                                 v[0] %= 145;
                             }
@@ -529,7 +566,8 @@ pub fn build(plan: &StreamPlan, o: &BuildOpts) -> Built {
                     packets.push(enc_fixed(ver, rs.len() as u16, &h, &rs));
                 }
                 PktPlan::V9 { hdr, sets } => {
-                    let so = build_sets(Proto::V9, &plan.pool, sets, &mut cache.v9, o);
+                    // (sysUpTime in ms, unix seconds)
+                    let so = build_sets(Proto::V9, &plan.pool, sets, &mut cache.v9, o, [hdr[0], hdr[1]]);
                     let count = if single && !o.count_by_flowsets {
                         so.n_records.max(so.n_sets)
                     } else {
@@ -544,7 +582,8 @@ pub fn build(plan: &StreamPlan, o: &BuildOpts) -> Built {
                     packets.push(w.0);
                 }
                 PktPlan::Ipfix { hdr, sets } => {
-                    let so = build_sets(Proto::Ipfix, &plan.pool, sets, &mut cache.ipfix, o);
+                    // (export time in seconds)
+                    let so = build_sets(Proto::Ipfix, &plan.pool, sets, &mut cache.ipfix, o, [hdr[0], hdr[0]]);
                     let mut w = W::default();
                     let (seq, src) = session.next(hdr[0], hdr[1], hdr[2]);
                     let hdr = &[hdr[0], seq, src];
@@ -685,12 +724,16 @@ pub fn v9_def(options: bool, max_fields: usize) -> BoxedStrategy<Def> {
             len: l,
             ent: None,
         });
-        // 1..3 scope fields; now and then an options template without option fields
-        (vec(scope, 1..=3), prop_oneof![9 => vec(f.clone(), 1..=max_fields.min(5)), 1 => vec(f, 0..=0)])
+        // 1..3 scope fields; now and then an options template without option fields, or
+        // (RFC 3954 does not forbid it) without scope fields
+        (prop_oneof![12 => vec(scope.clone(), 1..=3), 1 => vec(scope, 0..=0)], prop_oneof![9 => vec(f.clone(), 1..=max_fields.min(5)), 1 => vec(f, 0..=0)])
             .prop_map(|(s, opts)| {
                 let n = s.len() as u16;
                 let mut fields = s;
                 fields.extend(opts);
+                if fields.is_empty() {
+                    fields.push(FieldSpec { ie: 1, len: 4, ent: None });
+                }
                 Def {
                     kind: Kind::Options,
                     scope_n: n,
